@@ -4,6 +4,7 @@ import (
 	"fmt"
 	"go/token"
 	"go/types"
+	"sort"
 	"unicode/utf8"
 
 	"golang.org/x/tools/go/ssa"
@@ -51,11 +52,81 @@ func (ex *Exec) splitOperand(st *State, fr *Frame, op ssa.Value, t *Term, limit 
 	ex.forkAlts(st, fr, nil, alts)
 }
 
+// indexCandidates narrows the cells a symbolic index can select: when the index depends
+// on at most two input variables with explicit small domains (8-bit inputs, or wider ones
+// bounded by single-variable range constraints), the index term is evaluated on every
+// combination the domains allow.  The domains over-approximate the path condition, so no
+// feasible cell is lost; nil = all n cells.  (Large constant tables - charset decode
+// tables of 17 000 entries - would otherwise become ite chains over every entry.)
+func (ex *Exec) indexCandidates(st *State, idx *Term, n int) []int {
+	all := func() []int {
+		out := make([]int, n)
+		for i := range out {
+			out[i] = i
+		}
+		return out
+	}
+	if n <= 64 {
+		return all()
+	}
+	vars := realVars(idx)
+	if len(vars) == 0 || len(vars) > 2 {
+		return all()
+	}
+	doms := make([][]uint64, len(vars))
+	total := 1
+	for k, id := range vars {
+		vt := varTerm(id)
+		if vt == nil {
+			return all()
+		}
+		if w := st.wide[id]; (w == nil || w.vals == nil) && vt.sort.Bits != 8 {
+			return all()
+		}
+		doms[k] = st.domValues(id)
+		total *= len(doms[k])
+		if total > 1<<14 || total == 0 {
+			return all()
+		}
+	}
+	seen := map[int]bool{}
+	m := Model{}
+	var rec func(k int) bool
+	rec = func(k int) bool {
+		if k == len(vars) {
+			v, ok := evalTerm(idx, m)
+			if !ok {
+				return false
+			}
+			if iv := int64(v); iv >= 0 && iv < int64(n) {
+				seen[int(iv)] = true
+			}
+			return true
+		}
+		for _, v := range doms[k] {
+			m[vars[k]] = v
+			if !rec(k + 1) {
+				return false
+			}
+		}
+		return true
+	}
+	if !rec(0) || len(seen) == 0 {
+		return all()
+	}
+	out := make([]int, 0, len(seen))
+	for i := range seen {
+		out = append(out, i)
+	}
+	sort.Ints(out)
+	return out
+}
+
 // splitSymPtr forks on the symbolic index of the pointer held in register op.
 func (ex *Exec) splitSymPtr(st *State, fr *Frame, op ssa.Value, sp SymPtr) {
 	idx := fr.info.index[op]
 	var alts []Alt
-	for i := 0; i < sp.n; i++ {
+	for _, i := range ex.indexCandidates(st, sp.idx, sp.n) {
 		p := sp.at(i)
 		alts = append(alts, Alt{cond: mkEq(sp.idx, mkBV(64, uint64(i))), then: func(ex *Exec, s2 *State, f2 *Frame) {
 			f2.regs[idx] = p
@@ -79,7 +150,9 @@ func (ex *Exec) loadAny(st *State, fr *Frame, op ssa.Value, p Value) (Value, boo
 		// ite-merge over all candidate cells
 		var acc Value
 		okMerge := true
-		for i := x.n - 1; i >= 0; i-- {
+		cands := ex.indexCandidates(st, x.idx, x.n)
+		for k := len(cands) - 1; k >= 0; k-- {
+			i := cands[k]
 			v := st.load(x.at(i))
 			if acc == nil {
 				acc = v
@@ -116,18 +189,19 @@ func (ex *Exec) storeAny(st *State, fr *Frame, op ssa.Value, p Value, v Value) b
 		st.store(x, v)
 		return true
 	case SymPtr:
-		news := make([]Value, x.n)
-		for i := 0; i < x.n; i++ {
+		cands := ex.indexCandidates(st, x.idx, x.n)
+		news := make([]Value, len(cands))
+		for k, i := range cands {
 			old := st.load(x.at(i))
 			m, ok := mergeVal(mkEq(x.idx, mkBV(64, uint64(i))), v, old)
 			if !ok {
 				ex.splitSymPtr(st, fr, op, x)
 				return false
 			}
-			news[i] = m
+			news[k] = m
 		}
-		for i := 0; i < x.n; i++ {
-			st.store(x.at(i), news[i])
+		for k, i := range cands {
+			st.store(x.at(i), news[k])
 		}
 		ex.recordAccess(st, fr, x.at(0), true)
 		return true
